@@ -122,13 +122,14 @@ func deltaSuffix(s, prefix string) (int64, bool) {
 // blockScratch tracks, while the txs of one block are materialised, what earlier txs of the same
 // block are expected to do (a prediction only; the model itself is driven by real outcomes).
 type blockScratch struct {
+	lastStake map[Addr][2][]byte // sender -> (tx hash, delegatee) of its latest staking tx in this block
 	nonceAdd map[Addr]uint64
 	spent    map[Addr]*big.Int
 	gasEVM   uint64
 }
 
 func newScratch() *blockScratch {
-	return &blockScratch{nonceAdd: map[Addr]uint64{}, spent: map[Addr]*big.Int{}}
+	return &blockScratch{nonceAdd: map[Addr]uint64{}, spent: map[Addr]*big.Int{}, lastStake: map[Addr][2][]byte{}}
 }
 
 func (w *World) resolveTarget(to string) (Addr, bool) {
@@ -368,6 +369,12 @@ func (w *World) materialise(it Intent, h int64, idx int, sc *blockScratch) *TxPl
 			id, _ = hex.DecodeString(*it.IDHex)
 			p.StakeSeq = -1
 		}
+		if it.Stake == -2 {
+			// the stake this sender created earlier in this very block
+			if ls, ok := sc.lastStake[from]; ok {
+				id, toB = ls[0], ls[1]
+			}
+		}
 		tx = web3.NewTrxUnstaking(fromB, toB, nonce, gas, gp, id)
 	case "withdraw":
 		tx = web3.NewTrxWithdraw(fromB, fromB, nonce, gas, gp, u256(amt))
@@ -412,10 +419,19 @@ func (w *World) materialise(it Intent, h int64, idx int, sc *blockScratch) *TxPl
 		return p
 	}
 	tx.Time = w.Tr.Genesis.TimeUnix*1_000_000_000 + h*1_000_000 + int64(idx)
+	if it.ToRaw != "" {
+		if b, err := hex.DecodeString(it.ToRaw); err == nil {
+			tx.To = b
+		}
+	}
 
 	chain := m.ChainID
 	if it.WrongChain {
 		chain = chain + "-other"
+		p.Tampered = true
+	}
+	if it.EmptyChain {
+		chain = ""
 		p.Tampered = true
 	}
 	w.signTx(tx, act, chain)
@@ -431,6 +447,9 @@ func (w *World) materialise(it Intent, h int64, idx int, sc *blockScratch) *TxPl
 	}
 	p.Bytes = bz
 	p.finish()
+	if it.Kind == "stake" && !p.Tampered {
+		sc.lastStake[from] = [2][]byte{append([]byte(nil), p.Hash...), to.Bytes()}
+	}
 
 	// prediction for later txs of this block
 	if !p.Tampered && it.Nonce == 0 {
